@@ -12,7 +12,7 @@ from common import Verdict, tier as get_tier, seed as get_seed, RUN
 import judge
 
 from vsim import tagged
-from vsim.explore import run_once
+from vsim.explore import run_once, explore_dfs
 from vsim import scenarios as S
 from vsim.world import sm_arn, exec_arn
 
@@ -239,9 +239,9 @@ def oracle_for(tasks):
     return out
 
 
-def observe(oid, asl, inp):
+def observe(oid, asl, inp, policy="first", schedule=None, result=None):
     scn = S.scn("c01", asl, inputs=(inp,), oracle=oracle_for(TASKS), workers=list(TASKS))
-    r = run_once(scn, d1=False, execution_ttl=100000)
+    r = result or run_once(scn, d1=False, execution_ttl=100000, policy=policy, schedule=schedule or ())
     rec = list(r.outcomes.values())[0] or {}
     status = rec.get("status") or ""
     out = None
@@ -255,6 +255,36 @@ def observe(oid, asl, inp):
             "status": status, "output": tagged.enc(out), "error": rec.get("error") or ""}, (r.error or "")
 
 
+def directed_programs():
+    """shapes that the random grammar reaches only occasionally (each was the home of a defect or of a seeded change)"""
+    FNP = "arn:aws:rpcmessage:local::function:"
+    T = lambda fn, **k: dict({"Type": "Task", "Resource": FNP + fn}, **k)
+    P = lambda **k: dict({"Type": "Pass"}, **k)
+    cat = [{"ErrorEquals": ["States.ALL"], "Next": "R", "ResultPath": "$.r"}]
+    slow_fallback = {"StartAt": "A", "States": {"A": T("e1", Catch=cat, End=True), "R": P(Next="R2"), "R2": P(Result=1, ResultPath="$.x", End=True)}}
+    quick = {"StartAt": "B", "States": {"B": T("f", End=True)}}
+    out = []
+    # an error caught inside a branch while the peer finishes first: the join waits for the fallback states
+    out.append({"StartAt": "Q", "States": {"Q": {"Type": "Parallel", "Branches": [slow_fallback, quick], "Next": "Z"}, "Z": P(End=True)}})
+    out.append({"StartAt": "Q", "States": {"Q": {"Type": "Parallel", "Branches": [quick, slow_fallback], "End": True}}})
+    # the same inside a Map (every iteration takes the fallback), and a Map of Maps with MaxConcurrency
+    out.append({"StartAt": "M", "States": {"M": {"Type": "Map", "ItemsPath": "$.items", "ItemProcessor": slow_fallback, "End": True}}})
+    inner = {"StartAt": "N", "States": {"N": {"Type": "Map", "ItemsPath": "$.a.c", "ItemProcessor": {"StartAt": "I", "States": {"I": P(End=True)}}, "End": True}}}
+    out.append({"StartAt": "M", "States": {"M": {"Type": "Map", "ItemsPath": "$.items", "MaxConcurrency": 1,
+                                                   "ItemSelector": {"a.$": "$.a", "v.$": "$$.Map.Item.Value"}, "ItemProcessor": inner, "End": True}}})
+    # the start state's ResultPath and the execution input
+    out.append({"StartAt": "S", "States": {"S": P(ResultPath="$.x", Next="K"), "K": T("f", Parameters={"p.$": "$$.Execution.Input"}, End=True)}})
+    # a sub-tree of the input placed inside itself
+    out.append({"StartAt": "S", "States": {"S": P(InputPath="$.a", ResultPath="$.a.r", Next="Z"), "Z": P(End=True)}})
+    out.append({"StartAt": "S", "States": {"S": P(Parameters={"p.$": "$.a"}, ResultPath="$.a.r", End=True)}})
+    # a two-step iteration, an empty Map ending a branch
+    out.append({"StartAt": "Q", "States": {"Q": {"Type": "Parallel", "Branches": [
+        {"StartAt": "M", "States": {"M": {"Type": "Map", "ItemsPath": "$.missing", "ItemProcessor": {"StartAt": "I", "States": {"I": P(End=True)}}, "End": True}}}, quick], "End": True}}})
+    out.append({"StartAt": "Q", "States": {"Q": {"Type": "Parallel", "Branches": [
+        {"StartAt": "M", "States": {"M": {"Type": "Map", "ItemsPath": "$.items", "ItemProcessor": {"StartAt": "I", "States": {"I": P(Next="J"), "J": T("g", End=True)}}, "End": True}}}, quick], "End": True}}})
+    return out
+
+
 def run(tier_name=None, replay=None):
     t = get_tier(tier_name)
     thorough = t == "thorough"
@@ -262,7 +292,7 @@ def run(tier_name=None, replay=None):
     rng = random.Random(get_seed() * 1009 + 1)
     if replay:
         rp = json.load(open(replay))
-        o, esc = observe(1, rp["definition"], rp["input"])
+        o, esc = observe(1, rp["definition"], rp["input"], schedule=rp.get("schedule"))
         fails, stats = judge.run_judge("JudgeC01", [o], os.path.join(RUN, "C01-replay"))
         for f in fails:
             print("  ", f, "observed:", o["status"], tagged.dec(o["output"]), o["error"])
@@ -275,13 +305,32 @@ def run(tier_name=None, replay=None):
     n = 0
     g = Gen(rng)
     types = collections.Counter()
+    directed = directed_programs()
+    ndirected = len(directed)
     while len(meta) < nprog:
-        asl = g.machine(2 if (thorough or rng.random() < 0.6) else 1)
+        asl = directed.pop() if directed else g.machine(2 if (thorough or rng.random() < 0.6) else 1)
         key = json.dumps(asl, sort_keys=True)
         if key in seen:
             continue
         seen.add(key)
+        was_directed = len(directed) < ndirected and len(meta) < 2 * 2 * ndirected
         for inp in ([INPUTS[0], rng.choice(INPUTS[1:])]):
+            if was_directed:
+                # (what the States Language prescribes does not depend on the schedule: the directed shapes are run under
+                # the first schedules of the depth-first enumeration as well; one observation per distinct outcome)
+                outs = {}
+                scn = S.scn("c01", asl, inputs=(copy.deepcopy(inp),), oracle=oracle_for(TASKS), workers=list(TASKS))
+
+                def keep(r):
+                    rec = list(r.outcomes.values())[0] or {}
+                    outs.setdefault(json.dumps([rec.get("status"), rec.get("output"), rec.get("error")], sort_keys=True, default=str), r)
+                explore_dfs(scn, budget=(120 if thorough else 40), d1=False, on_run=keep, execution_ttl=100000)
+                for r in outs.values():
+                    n += 1
+                    o, esc = observe(n, asl, copy.deepcopy(inp), result=r)
+                    obs.append(o)
+                    meta[n] = {"definition": asl, "input": inp, "schedule": list(r.schedule)}
+                continue
             n += 1
             o, esc = observe(n, asl, copy.deepcopy(inp))
             obs.append(o)
